@@ -280,3 +280,37 @@ package main
 //@ axiom cutLeadQ(s string): ("?" + s)[1:len("?" + s)] == s
 //@ func createCompiledRouteHandler$1
 //@   callpre interpreter.ProcessQueryParams qsrc(arg0) == ctx.Request.URL.RawQuery
+
+// ---- query parameter defaults (C02): the compiled handler evaluates literal defaults only, so it is registered only for
+// ---- routes whose declared defaults are all literals (any other module runs on the interpreter); under that condition
+// ---- every declared parameter with a default is bound, as in the interpreter
+//@ spec func litVal(l ast.Literal) bool = typeis(l, ast.IntLiteral) || typeis(l, ast.FloatLiteral) || typeis(l, ast.StringLiteral) || typeis(l, ast.BoolLiteral) || typeis(l, ast.NullLiteral)
+//@ spec func litExpr(e ast.Expr) bool = typeis(e, ast.LiteralExpr) && litVal(e.(ast.LiteralExpr).Value)
+//@ spec func litDefaults(r *ast.Route) bool = forall(k, 0, len(r.QueryParams), r.QueryParams[k].Default != nil ==> litExpr(r.QueryParams[k].Default))
+//@ func evalLiteralExpr
+//@   modifies nothing
+//@   ensures result1 == litExpr(expr)
+//@ func moduleHasComputedQueryDefault
+//@   requires module != nil
+//@   modifies nothing
+//@   ensures !result ==> forall(j, 0, len(module.Items), typeis(module.Items[j], *ast.Route) && module.Items[j].(*ast.Route) != nil ==> litDefaults(module.Items[j].(*ast.Route)))
+//@   loop 1 invariant 0 <= rangeidx && forall(j, 0, rangeidx, typeis(module.Items[j], *ast.Route) && module.Items[j].(*ast.Route) != nil ==> litDefaults(module.Items[j].(*ast.Route)))
+//@   loop 2 invariant 0 <= rangeidx && forall(k, 0, rangeidx, route.QueryParams[k].Default != nil ==> litExpr(route.QueryParams[k].Default))
+// (start-up diagnostics: read the module, write nothing)
+//@ func moduleInjectsLLM
+//@   modifies nothing
+//@ func warnUnconfiguredAuth
+//@   modifies nothing
+//@ func warnInertDeclarations
+//@   modifies nothing
+//@ spec func allLit(m *ast.Module) bool = forall(j, 0, len(m.Items), typeis(m.Items[j], *ast.Route) && m.Items[j].(*ast.Route) != nil ==> litDefaults(m.Items[j].(*ast.Route)))
+//@ func setupRoutes
+//@   callpre glyph.registerCompiledRoute arg1 != nil ==> litDefaults(arg1)
+//@   loop 2 invariant useCompiler ==> allLit(module)
+//@   loop 3 invariant allLit(module)
+//@ func registerCompiledRoute
+//@   requires route != nil ==> litDefaults(route)
+//@ func createCompiledRouteHandler$1
+//@   requires route != nil && litDefaults(route)
+//@   assertat "queryObj := make(map[string]vm.Value, len(queryParams))" forall(k, 0, len(route.QueryParams), route.QueryParams[k].Default != nil ==> has(queryParams, route.QueryParams[k].Name))
+//@   loop 2 invariant queryParams != nil && 0 <= rangeidx && forall(k, 0, rangeidx, route.QueryParams[k].Default != nil ==> has(queryParams, route.QueryParams[k].Name))
